@@ -650,6 +650,54 @@ var _ = late(func() {
 				}
 			}
 			r.ok(good && n > 0, an.short+"|watches-receiver", fn.Pos(), "the iterator must keep a pointer to the container itself (the pointer receiver of Iterate), otherwise its generation test compares against a copy that never changes: "+why)
+			// ... on every return: a shortcut that hands out a plain iterator over the buffer (iterator.Slice(d.a[front:back+1])
+			// for an unwrapped deque) aliases the live array with no generation test at all
+			k := 0
+			instrs(fn, func(_ *ssa.BasicBlock, _ int, in ssa.Instruction) {
+				ret, ok := in.(*ssa.Return)
+				if !ok || len(ret.Results) != 1 {
+					return
+				}
+				k++
+				holds := true
+				what := ""
+				for _, lf := range valueLeaves(returnedValue(ret, 0), nil, 0) {
+					v := lf.v
+					for {
+						if mi, isMI := v.(*ssa.MakeInterface); isMI {
+							v = mi.X
+							continue
+						}
+						break
+					}
+					al, isAl := v.(*ssa.Alloc)
+					if !isAl {
+						holds, what = false, path(v)
+						continue
+					}
+					// the object built here is given the receiver
+					given := false
+					for _, ref := range refsOf(al) {
+						fa, isFA := ref.(*ssa.FieldAddr)
+						if !isFA {
+							continue
+						}
+						for _, r2 := range refsOf(fa) {
+							if st, isSt := r2.(*ssa.Store); isSt && st.Addr == ssa.Value(fa) {
+								for _, l2 := range valueLeaves(st.Val, lf.chain, 0) {
+									if resolveVal(l2.v) == ssa.Value(recv) {
+										given = true
+									}
+								}
+							}
+						}
+					}
+					if !given {
+						holds, what = false, "an object that is not given the container"
+					}
+				}
+				r.ok(holds, an.short+"|every-return-watches#"+itoa(k), retPos(ret), "Iterate hands out "+what+" on this path: an iterator that does not hold the container cannot notice that it changed - it goes on reading slots the container has since rewritten and never panics")
+			})
 		}
 	}
 	live := func(c *Ctx, r *R) {
@@ -738,7 +786,14 @@ var _ = late(func() {
 	properties["C15"].Rules = append(properties["C15"].Rules,
 		&Rule{ID: "C15.iter-watches-container", Floor: 2, Clause: "Heap.Iterate and Deque.Iterate have pointer receivers and store that receiver into the iterator they build: the generation test of the iterator looks at the container itself, not at a copy made when iteration started", Run: watch},
 		&Rule{ID: "C15.iter-reads-live", Floor: 1, Clause: "dequeIterator.Next reads a slot of the ring buffer only under Len() != 0 of the watched deque (or the equivalent count-down snapshot): an emptied deque keeps its buffer, so a test of the buffer's size does not end the iteration", Run: live})
+	var genBumpDeque func(*Ctx, *R)
+	for _, rl := range properties["C15"].Rules {
+		if rl.ID == "C15.gen-bump.deque" {
+			genBumpDeque = rl.Run
+		}
+	}
 	properties["C04"].Rules = append(properties["C04"].Rules,
+		&Rule{ID: "C04.resize-bumps-gen", Floor: 2, Clause: "same rule as C15.gen-bump.deque restricted to Grow and Shrink: they move the items to other slots of another buffer, so an Iterate in progress must be told (generation bump) - otherwise it goes on at a stale physical index and the history 'Iterate, Grow, Next' returns items the ideal sequence does not", Run: subRule(genBumpDeque, "Deque.Grow|", "Deque.Shrink|")},
 		&Rule{ID: "C04.iter-reads-live", Floor: 1, Clause: "same rule as C15.iter-reads-live: Iterate over a drained deque yields nothing - the iterator reads a slot only under Len() != 0, not under len(buffer) != 0", Run: live})
 })
 
